@@ -117,6 +117,26 @@ def r2_stop(ctx):
     ok = bool(edges) and cfg.edges_dominate(edges, g.bb)
     ctx.ob("R05.2", "write_with_padding:stop-cut-off", ok, g.site, "size generation is dominated by the false edge of `pkt >= stop()` on the same index" if ok else
            "shaping is not cut off by `pkt >= stop` (same index value as the one that selects the scheme line)")
+    # the converse: a write that goes out unshaped is justified by the role or by the cut-off test on the *current* scheme's
+    # stop() — not by a value remembered from an earlier scheme
+    stop_true, role_false = [], []
+    for c in conds.all():
+        t = c.term
+        if c.kind == "bool" and isinstance(t, tuple) and t[0] == "binop" and t[1] in ("Le", "Lt") and ((t[1] == "Le" and is_call_term(t[2], "PaddingFactory::stop") and strip_bb(t[3]) == strip_bb(idx)) or (t[1] == "Lt" and is_call_term(t[3], "PaddingFactory::stop") and strip_bb(t[2]) == strip_bb(idx))):
+            stop_true += c.edges_for(True) if t[1] == "Le" else c.edges_for(False)
+        if c.kind == "bool" and var_name(t) == "self.send_padding":
+            role_false += c.edges_for(False)
+    n_plain = 0
+    for w in calls_norm(body, "AsyncWriteExt::write_all"):
+        if cfg.dominates(g.bb, w.bb):
+            continue        # after the sizes were drawn: the shaping loop and its tail (R05.5, R05.9, R04.3)
+        n_plain += 1
+        okp = (role_false and cfg.edges_dominate(role_false, w.bb)) or (stop_true and cfg.edges_dominate(stop_true, w.bb))
+        ctx.ob("R05.2", "write_with_padding:unshaped-write-justified#%d" % n_plain, bool(okp), w.site,
+               "the plain write is dominated by send_padding == false or by `pkt >= stop()` of the scheme read for this write" if okp else
+               "a write leaves unshaped on a path that passed neither the role test nor the cut-off test against the current scheme's stop(): a cut-off decided from a remembered value goes stale when the server "
+               "pushes a scheme with a larger stop, and the packets between the old and the new stop go out at their natural size")
+    ctx.floor("R05.2", "unshaped writes ahead of the size generation", n_plain, 2)
     # same scheme object for stop() and the sizes
     st = calls_norm(body, "PaddingFactory::stop")
     if st:
@@ -425,6 +445,7 @@ def run(ctx):
     r11_no_header_only_padding(ctx)
     r12_close_writes_nothing(ctx)
     from . import C19 as _C19
+    _C19.r4_r5_client_adopts(ctx)    # a session changes scheme exactly when a push parsed: never on a rejected one
     _C19.r1_replaceable(ctx)     # the scheme shaping new sessions is the one pushed last (no early-out that leaves an older one in force)
     from . import C19
     C19.r2_new_sessions(ctx)   # the preamble (line 0) and the session (lines 1..) are given one and the same scheme object
